@@ -81,7 +81,11 @@ let string_of_op = function
   | OUnbind (w, n) -> Printf.sprintf "U%d.%d" (idx_of_pos w) (int_of_z n)
   | OGeom w -> Printf.sprintf "y%d" (idx_of_pos w)
   | ONop -> "-"
-let trace_str (h : heap) = join "," (List.rev_map string_of_op h.tr)
+  | OFrameRef w -> Printf.sprintf "+%d" (idx_of_pos w)
+  | OFrameUnref w -> Printf.sprintf "~%d" (idx_of_pos w)
+(* the trace the harness can see: the client's calls (the library's frame references are the model's own record) *)
+let client_call = function OFrameRef _ | OFrameUnref _ -> false | _ -> true
+let trace_str (h : heap) = join "," (List.rev_map string_of_op (List.filter client_call h.tr))
 
 let dump (h : heap) : string =
   let ws = List.sort compare (List.map (fun (k, c) -> (idx_of_pos k, c)) (PositiveMap.elements h.wins)) in
